@@ -39,7 +39,8 @@ package varutil
 
 // ReduceAbsPath is the stack machine on "/"-separated segments: names push, ".." pops
 // (error on an empty stack), "" and "." are skipped. The result has no ".." segment.
-//@ func ReduceAbsPath [C03 C01]
+//@ func ReduceAbsPath [C03 C01 C02]
+//@   pure
 //@   modifies $none
 //@   ensures err == nil ==> NoDotDot(result)
 //@   ensures err != nil ==> result == ""
